@@ -19,6 +19,52 @@ def NextPost (s : Sched) (off t0 yl : Int) : Result → Prop
   | .zero => ∃ t', yl < year (fixedZone off) t' ∧ NoMatch s (fixedZone off) t0 t'
   | .fuel => False
 
+/-- One pass through the five loops. -/
+def PassPost (s : Sched) (off t0 tin : Int) : PassOut → Prop
+  | .wrap t' a' => a' = true ∧ QW s off t0 tin t'
+  | .done r => t0 ≤ r ∧ Matches s (fixedZone off) r ∧ NoMatch s (fixedZone off) t0 r
+  | .fuel => False
+
+theorem pass_rule (h60 : off % 60 = 0) (t0 t : Int) (a : Bool) (hinv : Inv0 s Z t0 t a) :
+    PassPost s off t0 t (pass s Z t a) := by
+  simp only [pass]
+  have hm := month_rule t0 t t a ⟨Int.le_refl t, hinv⟩
+  cases hml : monthLoop s Z innerFuel t a with
+  | fuel => rw [hml] at hm; exact hm.elim
+  | wrap t' a' => rw [hml] at hm; exact hm
+  | next t1 a1 =>
+  rw [hml] at hm
+  simp only [LoopOut.andThen]
+  have hd := day_rule t0 t t1 a1 hm
+  cases hdl : dayLoop s Z innerFuel t1 a1 with
+  | fuel => rw [hdl] at hd; exact hd.elim
+  | wrap t' a' => rw [hdl] at hd; exact hd
+  | next t2 a2 =>
+  rw [hdl] at hd
+  simp only [LoopOut.andThen]
+  have hh := hour_rule t0 t t2 a2 hd
+  cases hhl : hourLoop s Z innerFuel t2 a2 with
+  | fuel => rw [hhl] at hh; exact hh.elim
+  | wrap t' a' => rw [hhl] at hh; exact hh
+  | next t3 a3 =>
+  rw [hhl] at hh
+  simp only [LoopOut.andThen]
+  have hmi := minute_rule h60 t0 t t3 a3 hh
+  cases hmil : minuteLoop s Z innerFuel t3 a3 with
+  | fuel => rw [hmil] at hmi; exact hmi.elim
+  | wrap t' a' => rw [hmil] at hmi; exact hmi
+  | next t4 a4 =>
+  rw [hmil] at hmi
+  simp only [LoopOut.andThen]
+  have hs := second_rule t0 t t4 a4 (PinS_of_PinMi hmi.1 hmi.2)
+  cases hsl : secondLoop s Z innerFuel t4 a4 with
+  | fuel => rw [hsl] at hs; exact hs.elim
+  | wrap t' a' => rw [hsl] at hs; exact hs
+  | next t5 a5 =>
+  rw [hsl] at hs
+  simp only [LoopOut.andThen]
+  exact ⟨hs.1, hs.2.2, hs.2.1⟩
+
 theorem nextFrom_rule (h60 : off % 60 = 0) (t0 yl B : Int)
     (hB : ∀ u, year Z u ≤ yl → u < B) :
     ∀ (f : Nat) (t : Int) (a : Bool), Inv0 s Z t0 t a → B - t < f → 0 < f →
@@ -33,47 +79,15 @@ theorem nextFrom_rule (h60 : off % 60 = 0) (t0 yl B : Int)
     · exact ⟨t, by assumption, hinv.1⟩
     · rename_i hy
       have hlt := hB t (by omega)
-      have hwrap : ∀ t' a', a' = true ∧ QW s off t0 t t' →
-          NextPost s off t0 yl (nextFrom s Z yl f t' a') := by
-        intro t' a' ⟨ha, hlt', hinv'⟩
+      have hp := pass_rule (s := s) h60 t0 t a hinv
+      cases hps : pass s Z t a with
+      | fuel => rw [hps] at hp; exact hp.elim
+      | wrap t' a' =>
+        rw [hps] at hp
+        obtain ⟨ha, hlt', hinv'⟩ := hp
         subst ha
         exact ih t' true hinv' (by omega) (by omega)
-      have hm := month_rule t0 t t a ⟨Int.le_refl t, hinv⟩
-      cases hml : monthLoop s Z innerFuel t a with
-      | fuel => rw [hml] at hm; exact hm.elim
-      | wrap t' a' => rw [hml] at hm; exact hwrap t' a' hm
-      | next t1 a1 =>
-      rw [hml] at hm
-      simp only [LoopOut.andThen]
-      have hd := day_rule t0 t t1 a1 hm
-      cases hdl : dayLoop s Z innerFuel t1 a1 with
-      | fuel => rw [hdl] at hd; exact hd.elim
-      | wrap t' a' => rw [hdl] at hd; exact hwrap t' a' hd
-      | next t2 a2 =>
-      rw [hdl] at hd
-      simp only [LoopOut.andThen]
-      have hh := hour_rule t0 t t2 a2 hd
-      cases hhl : hourLoop s Z innerFuel t2 a2 with
-      | fuel => rw [hhl] at hh; exact hh.elim
-      | wrap t' a' => rw [hhl] at hh; exact hwrap t' a' hh
-      | next t3 a3 =>
-      rw [hhl] at hh
-      simp only [LoopOut.andThen]
-      have hmi := minute_rule h60 t0 t t3 a3 hh
-      cases hmil : minuteLoop s Z innerFuel t3 a3 with
-      | fuel => rw [hmil] at hmi; exact hmi.elim
-      | wrap t' a' => rw [hmil] at hmi; exact hwrap t' a' hmi
-      | next t4 a4 =>
-      rw [hmil] at hmi
-      simp only [LoopOut.andThen]
-      have hs := second_rule t0 t t4 a4 (PinS_of_PinMi hmi.1 hmi.2)
-      cases hsl : secondLoop s Z innerFuel t4 a4 with
-      | fuel => rw [hsl] at hs; exact hs.elim
-      | wrap t' a' => rw [hsl] at hs; exact hwrap t' a' hs
-      | next t5 a5 =>
-      rw [hsl] at hs
-      simp only [LoopOut.andThen]
-      exact ⟨hs.1, hs.2.2, hs.2.1⟩
+      | done r => rw [hps] at hp; exact hp
 
 /-- Years grow with time, and five more years are fewer than 2233 days away. -/
 theorem year_mono {u t : Int} (h : u ≤ t) : year Z u ≤ year Z t := by
